@@ -132,6 +132,9 @@ def gen_config(rng, small=True):
     algo = rng.choice(["RollSum", "BuzHash"])
     bits = rng.randrange(1, 9 if small else 16)
     avg = 1 << (bits + 1)
+    if rng.random() < 0.4:
+        # a requested average that is not a power of two is rounded DOWN to one (documented)
+        avg += rng.randrange(1, avg)
     w = rng.choice([1, 2, 3, 4, 8, 16, 31, 64])
     mn = rng.choice([0, 1, avg // 4, avg // 2, avg, min(avg, w), min(avg, w + 1)])
     mx = max(avg, w, mn) + rng.choice([0, 1, avg, 4 * avg, 16 * avg])
@@ -668,16 +671,20 @@ def c14_refusals(seed, tier):
     try:
         reps = 12 if tier == "thorough" else 1
         for rep in range(reps):
-            src = gen_source(rng, 3000) or b"x" * 300
+            src = gen_source(rng, 3000)
+            if len(src) < 50:
+                src = rng.randbytes(300)      # the table's "device 10 bytes smaller than the source" needs a source to be smaller than
             arch, apath, cfg_tok, hl = make_archive(W, rng, src)
             hc = pyfmt_header_checksum(arch)
             bad = bytearray(arch)
             bad[20 + rng.randrange(10)] ^= 0x10           # inside the dictionary: header checksum fails
             bad_path = W.write(bytes(bad), ".bad.cba")
             junk_path = W.write(rng.randbytes(200), ".junk.cba")
+            hs_ = pyfmt_header_size(arch)
+            cut_path = W.write(arch[:hs_ - rng.choice([1, 32, 64])], ".cut.cba")     # the file ends inside the header checksum
             for out_state in ("absent", "regular-short", "regular-long", "blockdev-big", "blockdev-small"):
                 for flags in ("none", "force", "seed-output"):
-                    for akind in ("valid", "corrupt-header", "not-an-archive", "pin-mismatch", "pin-prefix", "pin-permuted", "pin-ok"):
+                    for akind in ("valid", "corrupt-header", "not-an-archive", "cut-in-checksum", "pin-mismatch", "pin-prefix", "pin-permuted", "pin-ok"):
                         outp = W.fresh(".out")
                         prior = None
                         if out_state == "regular-short":
@@ -692,7 +699,7 @@ def c14_refusals(seed, tier):
                             with open(outp, "wb") as f:
                                 f.write(prior)
                         blockdev = out_state.startswith("blockdev")
-                        ap = {"valid": apath, "corrupt-header": bad_path, "not-an-archive": junk_path}.get(akind, apath)
+                        ap = {"valid": apath, "corrupt-header": bad_path, "not-an-archive": junk_path, "cut-in-checksum": cut_path}.get(akind, apath)
                         pin = None
                         if akind == "pin-mismatch":
                             pin = ("%02x" % (hc[0] ^ 1)) + hc.hex()[2:]
@@ -709,7 +716,7 @@ def c14_refusals(seed, tier):
                                                     pin=pin, blockdev=blockdev)
                         after = read_file(outp)
                         # the property's expectation
-                        archive_refusal = akind in ("corrupt-header", "not-an-archive", "pin-mismatch", "pin-prefix", "pin-permuted")
+                        archive_refusal = akind in ("corrupt-header", "not-an-archive", "cut-in-checksum", "pin-mismatch", "pin-prefix", "pin-permuted")
                         exists_refusal = prior is not None and flags == "none"
                         small_dev = out_state == "blockdev-small"
                         refused = archive_refusal or exists_refusal or small_dev
@@ -738,6 +745,46 @@ def c14_refusals(seed, tier):
                                                         "untouched" if after == prior else "source" if (after is not None and after[:len(src)] == src) else "other"))
                         if os.path.exists(outp):
                             os.unlink(outp)
+            # the archive of an EMPTY source is its header only: cut anywhere inside the checksum it is not an archive,
+            # and an existing output must keep its content (it would be "cloned" to zero bytes otherwise)
+            earch, epath, _t, _h = make_archive(W, rng, b"")
+            for k in (1, 17, 64):
+                ecut = W.write(earch[:len(earch) - k], ".ecut.cba")
+                for flags in ("none", "force", "seed-output"):
+                    for existing in (True, False):
+                        outp = W.fresh(".out")
+                        prior = rng.randbytes(300) if existing else None
+                        if existing:
+                            with open(outp, "wb") as f:
+                                f.write(prior)
+                        cls, rc, so, se = clone_cli(W, ecut, outp, seed_output=(flags == "seed-output"), force=(flags == "force"))
+                        after = read_file(outp)
+                        req = "cli-clone header-only archive cut %d bytes short, output %s, flags=%s" % (k, "exists" if existing else "absent", flags)
+                        R.stat("cut_header_only_archive_rows")
+                        if cls == "ok":
+                            R.fail("refusal-expected-but-clone-succeeded", req)
+                        elif cls != "err":
+                            R.fail("refusal-ended-in-%s" % cls, req)
+                        if after != prior:
+                            R.fail("refused-operation-changed-the-output" if existing else "refused-for-archive-reasons-but-output-created", req)
+                        if os.path.exists(outp):
+                            os.unlink(outp)
+            # the output path is a dangling symbolic link: without --force-create / --seed-output the clone is refused
+            # (the path exists) and the link's target is not created
+            for flags in ("none",):
+                target = W.fresh(".target")
+                link = W.fresh(".link")
+                os.symlink(target, link)
+                cls, rc, so, se = clone_cli(W, apath, link)
+                R.stat("dangling_symlink_rows")
+                if cls == "ok" or os.path.exists(target):
+                    R.fail("refusal-expected-but-clone-succeeded" if cls == "ok" else "refused-operation-changed-the-output",
+                           "cli-clone onto a dangling symbolic link, no --force-create")
+                elif cls != "err":
+                    R.fail("refusal-ended-in-%s" % cls, "cli-clone onto a dangling symbolic link")
+                for q in (link, target):
+                    if os.path.lexists(q):
+                        os.unlink(q)
             # block devices of every size below a source that consists of repeated chunks (unique data < source)
             blk_a, blk_b = rng.randbytes(100), rng.randbytes(100)
             rsrc = (blk_a + blk_b) * 4
@@ -757,9 +804,10 @@ def c14_refusals(seed, tier):
                             R.fail("refusal-expected-but-clone-succeeded", req)
                         if after != prior:
                             R.fail("refused-operation-changed-the-output", req)
-                    elif cls != "ok" or after[:len(rsrc)] != rsrc or len(after) != dev_size:
+                    elif cls != "ok" or after is None or after[:len(rsrc)] != rsrc or len(after) != dev_size:
                         R.fail("block-device-output-wrong", req)
-                    os.unlink(outp)
+                    if os.path.exists(outp):
+                        os.unlink(outp)
             # compress: existing output without / with --force-create; invalid input
             for exists in (False, True):
                 for force in (False, True):
@@ -786,6 +834,11 @@ def c14_refusals(seed, tier):
     finally:
         W.close()
     return R.as_dict()
+
+
+def pyfmt_header_size(arch):
+    from . import pyfmt
+    return pyfmt.parse_archive(arch)["header_size"]
 
 
 def pyfmt_header_checksum(arch):
@@ -1476,7 +1529,7 @@ def c04_corruption(seed, tier):
                 m = bytearray(arch)
                 m[bit // 8] ^= 1 << (bit % 8)
                 mutants.append(("flip@%d" % bit, bytes(m), bit // 8 < hs))
-            for k in sorted(set([0, 1, 13, 14, hs - 1, hs, hs + 1, len(arch) - 1] + [rng.randrange(len(arch)) for _ in range(8)])):
+            for k in sorted(set([0, 1, 13, 14, hs - 64, hs - 63, hs - 32, hs - 1, hs, hs + 1, len(arch) - 1] + [rng.randrange(len(arch)) for _ in range(8)])):
                 if 0 <= k < len(arch):
                     mutants.append(("truncate@%d" % k, arch[:k], k < hs))
             mutants.append(("trailing-garbage", arch + rng.randbytes(50), False))
@@ -1511,6 +1564,15 @@ def c04_corruption(seed, tier):
                 cls, rc, so, se = clone_cli(W, mp, outp, **kw)
                 got = read_file(outp)
                 req = "cli-clone corrupted %s %s mode=%d cfg=%s hl=%d" % (compression, name, mode, cfg_tok, hl)
+                if in_header and mbytes[:hs] != arch[:hs]:
+                    # "any change inside the header is rejected when the archive is OPENED": also when the clone
+                    # would fail later anyway - `bita info` only opens
+                    ci, rci, soi, sei = run_bita(["info", mp], timeout=30)
+                    R.stat("altered_headers_opened_with_info")
+                    if ci == "ok":
+                        R.fail("altered-header-accepted-at-open", "bita info on %s %s cfg=%s hl=%d" % (compression, name, cfg_tok, hl))
+                    elif ci != "err":
+                        R.fail("corrupted-archive-%s" % ci, "bita info on %s %s" % (compression, name))
                 R.stat("mutants")
                 R.stat("mutant_%s" % name.split("@")[0])
                 if cls == "ok":
@@ -1780,8 +1842,10 @@ def c15_cli(seed, tier):
             arch, d = pyfmt.encode_archive(base_src, sizes, (1, 5, 16, 512, 16), 8, rng, freedoms=False)
             # structure-aware mutation under a recomputed checksum
             p = d["chunker_params"]
-            mut = rng.randrange(22)
+            mut = rng.randrange(23)
             name = "none"
+            if i in (5, 6, 7):
+                mut = 22
             if mut == 0:
                 d["rebuild_order"] = d["rebuild_order"] + [len(d["chunk_descriptors"]) + rng.choice([0, 1, 1000, 2 ** 32 - 1])]; name = "rebuild-index-out-of-range"
             elif mut == 1:
@@ -1831,6 +1895,14 @@ def c15_cli(seed, tier):
             elif i == 4:
                 p["chunking_algorithm"] = 1; p["rolling_hash_window_size"] = 20000; p["max_chunk_size"] = 2 ** 20
                 p["min_chunk_size"] = 0; p["chunk_filter_bits"] = 5; name = "rollsum-window-20000"; mut = 99
+            if mut == 22 and len(d["chunk_descriptors"]) >= 2:
+                # chunk_data_offset + archive_offset fits 64 bits, + archive_size does not
+                j = rng.randrange(len(d["chunk_descriptors"]))
+                d["chunk_descriptors"][j]["archive_offset"] = 2 ** 64 - 1000
+                hl_ = len(pyfmt.build_header(pyfmt.encode_dictionary(d)))
+                d["chunk_descriptors"][j]["archive_offset"] = 2 ** 64 - hl_ - rng.choice([1, 2, 3])
+                d["chunk_descriptors"][j]["archive_size"] = max(4, d["chunk_descriptors"][j]["archive_size"])
+                name = "offset-plus-size-overflow"
             dbytes = pyfmt.encode_dictionary(d)
             declared = None
             if mut == 21:
@@ -1839,9 +1911,16 @@ def c15_cli(seed, tier):
             data = hdr + arch[pyfmt.parse_archive(arch)["header_size"]:]
             apath = W.write(data, ".crafted.cba")
             classes = []
-            for cmd in ("info", "clone", "clone-seed", "clone-inplace"):
+            for cmd in ("info", "clone", "clone-seed", "clone-inplace", "clone-http", "clone-http-seed"):
                 outp = W.fresh(".out")
-                if cmd == "info":
+                if cmd.startswith("clone-http"):
+                    # the same crafted bytes behind the HTTP reader (range arithmetic, adjacent runs)
+                    if declared is not None and declared >= 2 ** 20:
+                        continue
+                    srv = httpd.Server(data)
+                    cls, rc, so, se = clone_cli(W, srv.url(), outp, seeds=[seedfile] if cmd.endswith("seed") else [], timeout=30)
+                    srv.close()
+                elif cmd == "info":
                     cls, rc, so, se = run_bita(["info", apath], timeout=20)
                 elif cmd == "clone":
                     cls, rc, so, se = clone_cli(W, apath, outp, timeout=20)
